@@ -456,7 +456,9 @@ pub fn main_entry(
 		},
 	};
 	let base_seed = env_seed();
-	let budget = Duration::from_secs(args.tier.pick(spec.budget_s.0, spec.budget_s.1));
+	let budget = Duration::from_secs(
+		std::env::var("PDBV_BUDGET_S").ok().and_then(|s| s.parse::<u64>().ok()).unwrap_or_else(|| args.tier.pick(spec.budget_s.0, spec.budget_s.1)),
+	);
 
 	// ---- replay mode: run the case in-process, print what happens
 	if let Some(path) = &args.replay {
